@@ -52,7 +52,7 @@ def run(ctx):
 
     pipe = Pipeline(ctx, 'C05_Trace', on_reject, lambda e: [e['id'], e['op'], e['x'], e['y'], e['via']],
                     parallel=2 if quick else 4)
-    events = Sink(ctx, pipe, lambda e: e['id'] + ':' + e['op'], ['comm:mul', 'ident:mul1', 'promo:add', 'ident:sgn', 'ident:subself'])
+    events = Sink(ctx, pipe, lambda e: e['id'] + ':' + e['op'], ['comm:mul', 'ident:mul1', 'promo:add', 'ident:sgn', 'ident:subself'], drv=d)
     ptext = 0.05 if quick else 0.03
     unit = {}
     for (t, n), lit in UNIT_LIT.items():
